@@ -1,7 +1,9 @@
 #!/bin/sh
-# usage: seedtest.sh <patch.diff> <prop>... ; applies the patch to /repo, runs the quick checks, undoes it
+# usage: seedtest.sh <patch.diff> <prop>... ; applies the patch to /repo, runs the quick checks, undoes it.
+# The evidence files of the unchanged tree are saved and restored (a seeded run must not overwrite them).
 patch=$1; shift
 cd /verif
+rm -rf /verif/work/evidence.keep; cp -r /verif/evidence /verif/work/evidence.keep
 git -C /repo apply $patch || { echo "patch does not apply"; exit 2; }
 for p in "$@"; do
   ./check $p --tier quick > /verif/work/seedtest_$p.log 2>&1; rc=$?
@@ -9,3 +11,5 @@ for p in "$@"; do
 done
 git -C /repo checkout -- .
 git -C /repo status --short | head -3
+rm -rf /verif/evidence; mv /verif/work/evidence.keep /verif/evidence
+find /verif/replays -name '*.json' -delete
